@@ -305,3 +305,35 @@ Proof.
   - apply compound_sample_then_satisfies.
     induction HF as [|sw subs' Hsw _ IH]; constructor; [exact (box_tree_sample_law acosF fuel _ Hsw)|exact IH].
 Qed.
+
+(* ---------- enforce is idempotent on compounds whenever it is on the components ---------- *)
+Section Idem.
+Variable acosF sinF : F -> F.
+Definition enf_idem_law (s : space) : Prop :=
+  forall x r, enforce acosF sinF s x = Ok r -> enforce acosF sinF s r = Ok r.
+
+Theorem compound_enforce_idempotent : forall subs,
+  Forall (fun sw => enf_idem_law (fst sw)) subs -> enf_idem_law (CS subs).
+Proof.
+  intros subs HF x r H. destruct x as [l|v|qx qy qz qw|xs]; try discriminate H.
+  destruct (enforce_CS_inv acosF sinF subs xs r H) as [rs [-> Hc]].
+  apply enforce_CS_n. clear H.
+  induction Hc as [xs|s w subs x xs r rs Hr _ IH]; [constructor|].
+  inversion HF as [|? ? Hs HF']; subst. constructor; [exact (Hs x r Hr)|exact (IH HF')].
+Qed.
+
+Lemma rv_leaf_idem : forall dim bs frac, enf_idem_law (RV dim bs frac).
+Proof.
+  intros dim bs frac x r H. destruct x as [l|v|qx qy qz qw|xs]; try discriminate H.
+  cbn [enforce] in H. destruct (rv_enforce dim bs l) as [l'| |e] eqn:E; try discriminate H.
+  inversion H; subst r. cbn [enforce]. rewrite (rv_enforce_idem_gen dim bs l l' E). reflexivity.
+Qed.
+
+Fixpoint box_tree_idem (s : space) (H : box_tree s) {struct H} : enf_idem_law s.
+Proof.
+  destruct H as [dim bs frac|subs HF].
+  - apply rv_leaf_idem.
+  - apply compound_enforce_idempotent.
+    induction HF as [|sw subs' Hsw _ IH]; constructor; [exact (box_tree_idem _ Hsw)|exact IH].
+Qed.
+End Idem.
